@@ -61,6 +61,8 @@ HYBRIDS = {
     'h7': ([0.0, 30.0, 75.0, 200.0, 300.0, 300.0, 150.0, 0.0], [0.0, 0.0, 0.0, 0.0, 0.15, 0.4, 0.7, 1.0]),
     'sigma5': ([0.0] * 6, [0.0, 0.1, 0.3, 0.6, 0.8, 1.0]),
     'pressure4': ([0.0, 200.0, 500.0, 800.0, 1000.0], [0.0] * 5),
+    # top level well below sigma = 0: the upper target layers lie beyond the one-cell extrapolation range
+    'top5': ([200.0, 250.0, 300.0, 200.0, 100.0, 0.0], [0.0, 0.0, 0.0, 0.3, 0.6, 1.0]),
 }
 PHI_VALUES = (6.0, 4.0, 3.0, 2.0, 1.0, 0.0, -1.0, -3.0)
 GZ = np.array([-4.0 + 0.5 * i for i in range(23)])
@@ -148,6 +150,14 @@ def units(tier, seed):
 
 
 # -- helpers -------------------------------------------------------------------------------------------------
+
+def _want(rec, key):
+  """group-level filter for replays: the recorded key is the group key or extends it."""
+  if rec.only is None:
+    return True
+  k = core.jsonable(key)
+  return list(rec.only[:len(k)]) == k
+
 
 def _nanfill(a):
   return np.where(np.isnan(a), 0.0, a)
@@ -292,7 +302,7 @@ def _work_nodes1d_set(xp, unit, rec):
     lo, hi, inside = ri.neighbour_bounds(Q, xp, F)
     for name, mode, n in ROUTINES_1D:
       key = (name, xtag, amp)
-      if not rec.want(key):
+      if not _want(rec, key):
         continue
       got = np.asarray(_jitted(name)(Q, xp, F))
       results[(name, amp)] = got
@@ -318,7 +328,10 @@ def _work_nodes1d_set(xp, unit, rec):
                 extra={'query_of_worst': float(Q[inside][int(np.argmax(np.nan_to_num(excess, nan=np.inf).max(axis=0)))])})
     # the accelerator path agrees with the default path
     key = ('_dot_interp==interp', xtag, amp)
-    if rec.want(key) and ('interp', amp) in results and ('_dot_interp', amp) in results:
+    if _want(rec, key):
+      for nm in ('interp', '_dot_interp'):
+        if (nm, amp) not in results:
+          results[(nm, amp)] = np.asarray(_jitted(nm)(Q, xp, F))
       rec.case(key, transitions=0, validated=1, outcome=None)
       rec.close(results[('_dot_interp', amp)], results[('interp', amp)], scale=abs(amp) * 4,
                 site='_dot_interp:agrees_with_interp', key=key, C=C)
@@ -334,7 +347,7 @@ def _work_nodes1d_set(xp, unit, rec):
   for wname, mode, n in WRAPPED:
     name = 'vectorize:' + wname
     key = (name, xtag)
-    if not rec.want(key):
+    if not _want(rec, key):
       continue
     got = np.asarray(_jitted(name)(x3, xp, F4))                                    # (A, Q, X, Y)
     R = ri.evaluate(Q, xp, Fall, mode, n)                                          # (A, N, Q)
@@ -359,7 +372,7 @@ def _work_nodes1d_set(xp, unit, rec):
     R = ri.evaluate(Q, xp, Fall[ai], 'constant')                                   # (N, Q)
     for xdim, xq in ((1, Q), (3, x3)):
       key = ('_vertical_interp', xtag, a, 'x%dd' % xdim, 'xp1d')
-      if not rec.want(key):
+      if not _want(rec, key):
         continue
       got = np.asarray(_jitted('_vertical_interp')(xq, xp, F4[ai]))               # (Q, X, Y)
       if xdim == 1:
@@ -393,7 +406,7 @@ def _work_vinterp3d(unit, rec):
       fp = np.stack([tables[c][0][cols[c]] for c in range(S)], axis=-1).reshape(k, X, Y)
       for xdim, xq in ((1, Q), (3, x3)):
         key = ('_vertical_interp', k, a, d0, 'x%dd' % xdim, 'xp3d')
-        if not rec.want(key):
+        if not _want(rec, key):
           continue
         got = np.asarray(_jitted('_vertical_interp')(xq, xp3, fp))
         if xdim == 1:
@@ -482,10 +495,10 @@ def _work_psigma(unit, rec):
                 'scalar': 2.5}
       key = ('interp_pressure_to_sigma',) + base_key
       out = None
-      if rec.want(key) or rec.only is not None:
+      if _want(rec, key) or rec.only is not None:
         out = jax.tree_util.tree_map(np.asarray, vi.interp_pressure_to_sigma(fields, pc, sig, PS))
       sc_aff = max(abs(amp) * (abs(a) + abs(bb) * 2.5) for amp, a, bb in profs) * 3
-      if rec.want(key):
+      if _want(rec, key):
         site = 'interp_pressure_to_sigma:vs_reference'
         wantB, st = _ref_columns(affB, tgt, P, tgt_exact, P_exact)
         cfB = np.stack([amp * (a + bb * tgt / 1000.0) for amp, a, bb in profs])
@@ -509,7 +522,7 @@ def _work_psigma(unit, rec):
         rec.note('interp_sigma_to_pressure:single_layer_source_not_enumerated', 1)
         continue
       key = ('interp_sigma_to_pressure',) + base_key
-      if not (rec.want(key) or rec.want(('roundtrip',) + base_key)):
+      if not (_want(rec, key) or _want(rec, ('roundtrip',) + base_key)):
         continue
       tgt2 = P[:, None, None] / PS                                              # (L, X, Y)
       tgt2_exact = [[[P_exact[t] / ps_exact[i][j] for j in range(Y)] for i in range(X)] for t in range(L)]
@@ -521,7 +534,7 @@ def _work_psigma(unit, rec):
       fields2 = {'lead': np.concatenate([saffB, sbasis, out['lead'][:NP]]), 'nolead': saffB[-1], 'scalar': 2.5}
       out2 = jax.tree_util.tree_map(np.asarray, vi.interp_sigma_to_pressure(fields2, pc, sig, PS))
       cf2 = affB                                                                 # the original columns
-      if rec.want(key):
+      if _want(rec, key):
         site = 'interp_sigma_to_pressure:vs_reference'
         wantB, st = _ref_columns(saffB, tgt2, cen, tgt2_exact, cen_exact)
         for pi, (amp, a, bb) in enumerate(profs):
@@ -538,7 +551,7 @@ def _work_psigma(unit, rec):
                         key=key + ('unit-columns',))
         rec.check(float(out2['scalar']) == 2.5, 'interp_sigma_to_pressure:scalar_leaf_unchanged', key)
       key = ('roundtrip',) + base_key
-      if rec.want(key):
+      if _want(rec, key):
         # pressure -> sigma -> pressure returns the affine column wherever both conversions are defined
         refS, stS = _ref_columns(affB, tgt, P, tgt_exact, P_exact)
         refS = np.where(stS == 'in', refS, np.nan)
@@ -590,7 +603,7 @@ def _work_hybrid(unit, rec):
     b = [i / 10 for i in bt]
     K = len(b) - 1
     key = ('interp_hybrid_to_sigma', name, bt)
-    if not rec.want(key):
+    if not _want(rec, key):
       continue
     sig = sc.SigmaCoordinates(np.asarray(b))
     cen = ri.sigma_centers(b)
@@ -640,7 +653,7 @@ def _work_surfp(unit, rec):
           want[bi, 0, x, y], wts[bi, 0, x, y] = ri.surface_pressure_column(lv, phi2[bi, :, x, y], gz[0, x, y])
     for g in GRAVITY:
       key = ('get_surface_pressure', ltag, g)
-      if not rec.want(key):
+      if not _want(rec, key):
         continue
       oro = gz / g
       got = np.asarray(vi.get_surface_pressure(pc, phi2, oro, g))
@@ -710,7 +723,7 @@ def _work_semilag(unit, rec):
         state = make(batch)
         for dt in dts:
           key = ('semi_lagrangian_vertical_advection_step', bt, mode, dt, amp)
-          if not rec.want(key):
+          if not _want(rec, key):
             continue
           out = step(state, dt)
           for e, (f, kk, m, l) in enumerate(exc):
@@ -723,8 +736,8 @@ def _work_semilag(unit, rec):
             scale = max(np.abs(batch[f]).max(), abs(amp)) * 8
             rec.close(got, batch[f], scale=scale, site='semi_lagrangian_step:identity(%s)' % mode, key=key, C=C,
                       extra={'field': f})
-          rec.exact(np.asarray(out.log_surface_pressure), np.asarray(state.log_surface_pressure),
-                    site='semi_lagrangian_step:surface_field_untouched', key=key)
+          rec.close(np.asarray(out.log_surface_pressure), np.asarray(state.log_surface_pressure),
+                    scale=max(np.abs(lsp).max(), 1e-3) * 8, site='semi_lagrangian_step:surface_field_unchanged', key=key, C=C)
 
 
 # -- hgrid --------------------------------------------------------------------------------------------------------
@@ -747,7 +760,7 @@ def _work_hgrid(unit, rec):
       equal = (a, sa, oa) == (b, sb, ob)
       for rname, cls in (('BilinearRegridder', hi.BilinearRegridder), ('NearestRegridder', hi.NearestRegridder)):
         key = (rname,) + gtag
-        if not rec.want(key):
+        if not _want(rec, key):
           continue
         r = cls(gs, gt)
         got = np.asarray(r(const))
